@@ -223,6 +223,27 @@ def _dtype_block(V, rng, tier):
         except Exception as ex:
             V.fail("pad with a complex fill value raises %s" % type(ex).__name__, dict(desc, exc=str(ex)[:200]))
         dist["pad complex value " + ("operator" if ttm else "tensor")] = dist.get("pad complex value " + ("operator" if ttm else "tensor"), 0) + 1
+    # a fill value that is huge next to the data (float32: 1e8, float64: 1e17, and the mirror image: data 1e-12 next to a fill of 1): the padded tensor still
+    # holds the data (torch's constant pad keeps it bit for bit) - measured relative to the DATA, not to the largest entry of the result
+    for j in range(8 if tier == "quick" else 60):
+        dt = [torch.float64, torch.float32, torch.complex128, torch.float64][j % 4]
+        d = rng.choice([1, 2, 3]); N = [rng.choice([2, 3]) for _ in range(d)]
+        x = mk(dt, N, [1] + [rng.choice([1, 2, 3]) for _ in range(d - 1)] + [1])
+        val = [1e17, 1e8, 1e17, 3.0][j % 4]; scale = 1e-12 if j % 4 == 3 else 1.0
+        if scale != 1.0: x = scale * x
+        pads = tuple((rng.choice([0, 1]), rng.choice([0, 1, 2])) for _ in range(d)) if j % 3 else ((0, 0),) * d
+        desc = {"pad_huge_fill": True, "dtype": str(dt), "N": N, "R": [int(r_) for r_ in x.R], "value": val, "data_scale": scale, "padding": [list(p_) for p_ in pads]}
+        try:
+            f = torchtt.pad(x, pads, value=val).full(); xf = x.full()
+            inner = f[tuple(slice(p_[0], p_[0] + n_) for n_, p_ in zip(N, pads))]
+            tol_ = (1e-5 if dt == torch.float32 else 1e-12) * max(float(xf.abs().max()), 1e-300)
+            if list(inner.shape) != list(xf.shape) or not (float((inner - xf).abs().max()) <= tol_):
+                V.fail("pad (tensor) with a fill value far larger than the data: the original block is not kept", dict(desc, max_abs_err_in_block=float((inner - xf).abs().max()), max_abs_data=float(xf.abs().max())))
+            mask_ = torch.ones_like(f, dtype=torch.bool); mask_[tuple(slice(p_[0], p_[0] + n_) for n_, p_ in zip(N, pads))] = False
+            if mask_.any() and not (float((f[mask_] - val).abs().max()) <= 1e-5 * abs(val)): V.fail("pad (tensor) with a fill value far larger than the data: the padding is not the fill value", desc)
+        except Exception as ex:
+            V.fail("pad with a huge fill value raises %s" % type(ex).__name__, dict(desc, exc=str(ex)[:200]))
+        dist["pad fill far larger than the data"] = dist.get("pad fill far larger than the data", 0) + 1
     return {"dtype_block": dist}
 
 def run(tier, seed, replay=None):
